@@ -35,6 +35,26 @@ class _View:
         return getattr(self._c, n)
 
 
+
+def wrap_raises(dbcon, viewfn):
+    """the callee's raises clauses seen through a view of the forwarder's context (also their exceptional ensures)"""
+    out = {}
+    for kind, fn in dbcon.raises.items():
+        def mk(fn):
+            def g(c):
+                spec = fn(viewfn(c))
+                if spec is None:
+                    return None
+                spec = dict(spec)
+                if "ensures" in spec:
+                    inner = spec["ensures"]
+                    spec["ensures"] = lambda cc: inner(viewfn(cc))
+                return spec
+            return g
+        out[kind] = staticmethod(mk(fn))
+    return out
+
+
 def forward(name, dbcon, ret, params, extra_defaults=None):
     class _c(Contract):
         pass
@@ -44,7 +64,7 @@ def forward(name, dbcon, ret, params, extra_defaults=None):
     _c.modifies = ("_db",)
     _c.theories = dbcon.theories
     _c.defaults = extra_defaults or {}
-    _c.raises = {k: staticmethod((lambda f: (lambda c: f(_View(c))))(v)) for k, v in dbcon.raises.items()}
+    _c.raises = wrap_raises(dbcon, _View)
     if hasattr(dbcon, "witness_sig"):
         _c.witness_sig = dbcon.witness_sig
     _c.requires = staticmethod(lambda c: dbcon.requires(_View(c)))
@@ -78,7 +98,7 @@ class _m_remove_all(Contract):
     ret = TInt
     modifies = ("_db",)
     theories = db_c._drop_measurement.theories
-    raises = {k: staticmethod((lambda f: (lambda c: f(_View(c))))(v)) for k, v in db_c._drop_measurement.raises.items()}
+    raises = wrap_raises(db_c._drop_measurement, lambda c: _View(c, {"name": c.self.t["_name"]}))
 
     @staticmethod
     def _v(c):
@@ -105,3 +125,83 @@ class _m_name(Contract):
     @staticmethod
     def ensures(c):
         return [("is_name", c.result.t == c.self.t["_name"].t)]
+
+
+# ---- update / update_all / insert through the handle
+class _UView:
+    """present a Measurement.update context as TinyFlux.update's: self -> self._db, _measurement -> some(name)"""
+
+    def __init__(self, c, query=None):
+        self._c, self._query = c, query
+
+    def __getattr__(self, n):
+        if n == "self":
+            return self._c.self.t["_db"]
+        if n == "_measurement":
+            return Val(OS, o_some(OS, self._c.self.t["_name"].t))
+        if n == "query" and self._query is not None:
+            return self._query
+        if n == "old":
+            return _UView(self._c.old, self._query) if self._c.old is not None else None
+        return getattr(self._c, n)
+
+
+def _m_update(name, is_all):
+    dbcon = db_c._update
+    q = Val(Q, q_noop_meas) if is_all else None
+
+    class _c(Contract):
+        """C10: the handle's update is the database update restricted to the handle's name (arguments in the callee's order)"""
+        params = dict(self=MS, **({} if is_all else dict(query=Q)), time=AnyV, measurement=AnyV, tags=AnyV, fields=AnyV, unset_fields=AnyV, unset_tags=AnyV)
+        defaults = {a: (lambda ex: Val(AnyV, AV_NONE)) for a in db_c.UPD_ARGS}
+        ret = TInt
+        modifies = ("_db",)
+        theories = dbcon.theories
+        raises = wrap_raises(dbcon, lambda c: _UView(c, q))
+        requires = staticmethod(lambda c: dbcon.requires(_UView(c, q)))
+        ghost_defs = staticmethod(lambda c: dbcon.ghost_defs(_UView(c, q)))
+        ensures = staticmethod(lambda c: dbcon.ensures(_UView(c, q)))
+
+    contract(_M + name)(_c)
+    return _c
+
+
+_m_update("update", False)
+_m_update("update_all", True)
+
+
+class _IView:
+    def __init__(self, c):
+        self._c = c
+
+    def __getattr__(self, n):
+        if n == "self":
+            return self._c.self.t["_db"]
+        if n == "measurement":
+            return Val(OS, o_some(OS, self._c.self.t["_name"].t))
+        if n == "compact_key_prefixes":
+            return mk_bool(False)
+        if n == "old":
+            return _IView(self._c.old) if self._c.old is not None else None
+        return getattr(self._c, n)
+
+
+def _m_insert(name, dbcon, params):
+    class _c(Contract):
+        """C10: inserting through the handle stores the point under the handle's name"""
+        ret = TInt
+        modifies = ("_db",)
+        theories = dbcon.theories
+        raises = wrap_raises(dbcon, _IView)
+        requires = staticmethod(lambda c: dbcon.requires(_IView(c)))
+        ensures = staticmethod(lambda c: dbcon.ensures(_IView(c)))
+        if hasattr(dbcon, "witness_sig"):
+            witness_sig = dbcon.witness_sig
+            witness = staticmethod(lambda c: c.ex.last_call_witnesses)
+    _c.params = dict(self=MS, **params)
+    contract(_M + name)(_c)
+    return _c
+
+
+_m_insert("insert", db_c._insert, dict(point=AnyObj))
+_m_insert("insert_multiple", db_c._insert_multiple, dict(points=LAny))
